@@ -17,7 +17,9 @@ def rand_str(rng, alphabet=CRIT, maxlen=8):
 PATHS = ['/a[1]', '/a/b[2]', '/p:a/p:b[1]', '/*/*[3]', '/a/comment()[1]', '/a/b/c[10]', 'node', '/a[1]/b[1]',
          '/doc/para[@id="intro, part 1"]', '/a/b[@k="x,y"][2]']     # hand-written paths: a quoted literal with a comma
 NAMES = ['a', 'b', 'k', '{urn:p}a', '{http://x.y/z}name', 'xml:id', 'p:q', 'tag', 'name-1', 'é',
-         'null', 'true', 'false', 'NaN', 'Infinity', 'e1', 'x0', '_1', 'insert', 'delete']   # names that LOOK like JSON / numbers / keywords
+         'null', 'true', 'false', 'NaN', 'Infinity', 'e1', 'x0', '_1', 'insert', 'delete',   # names that LOOK like JSON / numbers / keywords
+         # namespace names with commas (every name of the tag: scheme), quotes and blanks inside the braces of a Clark name
+         '{tag:example.org,2005:x}item', '{tag:a,b,c}k', '{urn:"quoted", odd}b', '{u, v}w']
 
 
 def rand_action(rng, wf=True):
